@@ -32,7 +32,8 @@ RULE = ("shapes {Hexagon, Rectangle (square and non-square), Circle, Cell, "
         "order; users of a moved cell and users seen through a wrapped copy are "
         "re-checked; sector users against an independent sector hexagon; border "
         "ratios include 0, 1 and 1e-12; cluster-level border users in all four "
-        "call forms. ")
+        "call forms. "
+        "Border users are requested with ratios 0.0 / 1.0 / 1e-12..1e-2 / None, one ratio or one per angle; wrapped copies must be congruent to the cell they wrap as it is NOW (re-rotated / resized after the copy), agree with their own polygon, and the 42 wrap-around cells of a 19-cell cluster must continue the tiling. ")
 ASSUMPTIONS = ["np.random is seeded per case (user placement uses the global "
                "generator)",
                "uniformity of the random placement is not part of the property"]
@@ -243,6 +244,18 @@ def case_wrap_users(ctx, rng, idx):
         else:
             inner.add_random_users(1)
             hist.append("add-user")
+    reshaped = False
+    if idx % 3 == 0:
+        # the wrapped cell is re-rotated / resized after the copy was made: the
+        # copy reports the new rotation and radius, so its polygon follows
+        if rng.random() < 0.6:
+            inner.rotation = float(inner.rotation) + float(rng.uniform(5, 55))
+            hist.append("rotate-inner")
+            reshaped = True
+        if ikind != "cellsquare" and rng.random() < 0.5:
+            inner.radius = float(inner.radius) * float(rng.uniform(0.5, 2.0))
+            hist.append("resize-inner")
+            reshaped = True
     tag = {"shape": "cellwrap-users", "inner": ikind, "inner_pos": complex(inner.pos),
            "wrap_pos": complex(wrap.pos), "radius": float(inner.radius),
            "rotation": float(inner.rotation), "history": hist}
@@ -255,10 +268,32 @@ def case_wrap_users(ctx, rng, idx):
     scale = abs(wrap.pos) + abs(inner.pos) + R
     ctx.ev("users-inside", len(users) == len(orig) == wrap.num_users, cls="cellwrap:count",
            detail={**tag, "got": len(users), "want": len(orig)})
+    # the copy is congruent to the cell it wraps as that cell is NOW
+    Vi = np.asarray(inner.vertices)
+    ctx.ev("containment", V.shape == Vi.shape and
+           bool(np.max(np.abs((V - complex(wrap.pos)) - (Vi - complex(inner.pos))))
+                <= 64 * EPS * scale), cls="cellwrap:copy-of-wrapped-cell",
+           detail={**tag, "wrap_vertices": V, "inner_vertices": Vi})
+    ctx.ev("containment", abs(float(np.real(wrap.rotation)) - float(inner.rotation))
+           <= 1e-12 * (1 + abs(float(inner.rotation))) and
+           abs(float(wrap.radius) - float(inner.radius)) <= 1e-12 * R,
+           cls="cellwrap:reports-wrapped-rotation-and-radius", detail=tag)
+    for _ in range(6):
+        q = complex(wrap.pos) + 1.3 * R * rng.random() * np.exp(2j * np.pi * rng.random())
+        if dist_to_boundary(q, V) < 1e-9 * R + 16 * EPS * scale:
+            ctx.tally("tie-zone-points")
+            continue
+        okq, ins = ctx.call("containment", wrap.is_point_inside_shape, q,
+                            detail=tag)
+        if okq:
+            ctx.ev("containment", bool(ins) == point_in_polygon(q, V),
+                   cls="cellwrap", detail={**tag, "point": q})
     for u, o in zip(users, orig):
         p = complex(u.pos)
         ctx.within("users-inside", abs(p - (o - inner.pos + wrap.pos)), 16 * EPS * scale,
                    "cellwrap:translated-original", {**tag, "user": p, "original": o})
+        if reshaped:
+            continue        # (users keep their places when their cell is re-shaped)
         if dist_to_boundary(p, V) < 1e-9 * R + 16 * EPS * scale:
             ctx.tally("tie-zone-points")
             continue
@@ -431,13 +466,21 @@ def case_border(ctx, rng, idx):
     # border users of a cell
     if kind in ("cell", "cell3sec", "cellsquare"):
         angs = [float(a) for a in rng.uniform(0, 360, size=3)]
-        rr = float(rng.uniform(0.1, 0.9))
-        okc, _ = ctx.call("border-point", s.add_border_user, angs, rr, detail=tag)
+        # ratios as floats (the documented type), ends of the range included;
+        # None = on the border; one ratio for all angles or one per angle
+        pickr = lambda: [float(rng.uniform(0.1, 0.9)), 0.0, 1.0,
+                         float(10.0 ** rng.uniform(-12, -2))][int(rng.integers(0, 4))]
+        form = int(rng.integers(0, 3))
+        rarg = pickr() if form == 0 else ([pickr() for _ in angs] if form == 1 else None)
+        rlist = [rarg] * 3 if form == 0 else (rarg if form == 1 else [1.0] * 3)
+        okc, _ = ctx.call("border-point", s.add_border_user, angs, *(() if rarg is None else (rarg,)),
+                          detail={**tag, "ratio": rarg})
         if okc:
-            for a, u in zip(angs, s.users[-3:]):
+            for a, u, rr in zip(angs, s.users[-3:], rlist):
                 ctx.within("border-point",
                            abs(complex(u.pos) - complex(s.get_border_point(a, rr))),
-                           1e-12 * scale, "border-user", {**tag, "angle": a, "ratio": rr})
+                           1e-12 * scale, "border-user", {**tag, "angle": a, "ratio": rr,
+                                                          "ratio_argument": rarg})
 
 
 HEX_SIZES = [1, 3, 4, 7, 13, 19]
@@ -535,6 +578,28 @@ def case_cluster(ctx, rng, idx):
                 ctx.ev("cluster-distances", len(cl.get_all_users()) == nu * ncell and
                        [complex(c.pos) for c in cl] == [complex(z) for z in centres],
                        cls="after-wrap:users-and-cells", detail=tag)
+                # the wrapped copies continue the tiling: hooked state (the
+                # library only exposes them to its plot routine)
+                wraps = list(getattr(cl, "_wrapped_cells", {}).values())
+                if not wraps:
+                    ctx.tally("wrapped-cells-not-observable")
+                else:
+                    wp = np.array([complex(w.pos) for w in wraps])
+                    allp = np.concatenate([centres, wp])
+                    Dw = np.abs(allp[:, None] - allp[None, :])
+                    Dw[np.arange(len(allp)), np.arange(len(allp))] = np.inf
+                    step = math.sqrt(3) * R
+                    ctx.within("cluster-neighbour-distance", abs(Dw.min() - step), 1e-9 * scale,
+                               "wrapped-cells:no-overlap",
+                               {**tag, "min_centre_distance": float(Dw.min()), "expected": step})
+                    ctx.ev("cluster-neighbour-distance",
+                           bool(np.all(np.abs(Dw.min(axis=1) - step) <= 1e-9 * scale)),
+                           cls="wrapped-cells:every-cell-has-neighbour", detail=tag)
+                    ref = np.asarray(cells[0].vertices) - complex(cells[0].pos)
+                    cong = all(np.asarray(w.vertices).shape == ref.shape and
+                               np.max(np.abs(np.asarray(w.vertices) - complex(w.pos) - ref))
+                               <= 1e-9 * scale for w in wraps)
+                    ctx.ev("cluster-layout", cong, cls="wrapped-cells:congruent", detail=tag)
         for name in ("calc_dist_all_users_to_each_cell_no_wrap_around",
                      "calc_dist_all_users_to_each_cell"):
             okc, Dm = ctx.call("cluster-distances", getattr(cl, name), detail=tag)
@@ -566,7 +631,9 @@ def case_cluster(ctx, rng, idx):
         ids = sorted(int(x) for x in rng.choice(np.arange(1, ncell + 1),
                                                 size=min(ncell, int(rng.integers(1, 4))),
                                                 replace=False))
-        rr = float(rng.uniform(0.1, 0.95))
+        pickr = lambda: [float(rng.uniform(0.1, 0.95)), float(rng.uniform(0.1, 0.95)), 0.0, 1.0,
+                         float(10.0 ** rng.uniform(-12, -2))][int(rng.integers(0, 5))]
+        rr = pickr()
         before = {c.id: c.num_users for c in cells}
         if form == 0:                       # one cell, one angle
             ids, ang = ids[:1], float(rng.uniform(0, 360))
@@ -585,7 +652,7 @@ def case_cluster(ctx, rng, idx):
         ratio_of = {i: rr for i in want}
         if form >= 2 and rng.random() < 0.5:
             # one ratio per cell
-            rlist = [float(rng.uniform(0.1, 0.95)) for _ in ids]
+            rlist = [pickr() for _ in ids]
             args = (args[0], args[1], rlist)
             ratio_of = {i: r for i, r in zip(ids, rlist)}
         okc, _ = ctx.call("border-point", cl.add_border_users, *args, cls="cluster:raised",
